@@ -4,7 +4,7 @@
    the width written.  The encoder's choices (posts, partition classes, values)
    are inputs; that its packets are consumed exactly is decided per run by the
    strict model decoder on real encoder output (harness/c05enc.c + pd pair). *)
-From VV Require Import SrcFacts Bits Pcm Fl Setup Codebook PacketDec Decoder_lemmas.
+From VV Require Import SrcFacts Bits Pcm Fl Setup Codebook PacketDec Pack Decoder_lemmas Pack_lemmas.
 From Coq Require Import ZArith List Bool.
 Import ListNotations.
 Local Open Scope Z_scope.
@@ -27,6 +27,49 @@ Theorem C05_accepted_modes_valid :
     length l = n /\ Forall (fun m => 0 <= md_mapping m < maps /\ (md_blockflag m = 0 \/ md_blockflag m = 1)) l.
 Proof. exact rd_modes_wf. Qed.
 Print Assumptions C05_accepted_modes_valid.
+
+(* HEADERS: the parser reads back exactly the set-up the packers wrote, for
+   EVERY packable set-up (Pack.v models _vorbis_pack_books, vorbis_staticbook_pack
+   with its ordered / sparse / dense length encodings, floor1_pack, res0_pack,
+   mapping0_pack; tied per run: re-packing the parsed set-up of every real
+   encoder header gives the same bytes), whatever padding follows *)
+Theorem C05_setup_header_roundtrip :
+  forall channels s pad, setup_ok channels s -> unpack_setup channels (pack_setup channels s ++ pad) = Some s.
+Proof. exact unpack_pack_setup. Qed.
+Print Assumptions C05_setup_header_roundtrip.
+
+Theorem C05_ident_header_roundtrip :
+  forall i pad, ident_ok i -> unpack_ident (pack_ident i ++ pad) = (HOk, Some i).
+Proof. exact unpack_pack_ident. Qed.
+Print Assumptions C05_ident_header_roundtrip.
+
+(* each codebook, alone: all three length encodings and both value mappings *)
+Theorem C05_codebook_roundtrip :
+  forall b rest, book_ok b -> (8 <= length rest)%nat -> unpack_book (pack_book b ++ rest) = Some (b, rest).
+Proof. exact unpack_pack_book. Qed.
+Print Assumptions C05_codebook_roundtrip.
+
+(* non-vacuity: an ordered book with a skipped length, a sparse book, a lattice book *)
+Definition ex_ordered : book := {| b_dim := 1; b_entries := 5; b_lengths := [1; 3; 3; 3; 3]; b_maptype := 0; b_qmin := 0; b_qdelta := 0; b_qquant := 0; b_qseq := 0; b_quantlist := [] |}.
+Definition ex_sparse : book := {| b_dim := 2; b_entries := 4; b_lengths := [1; 0; 2; 2]; b_maptype := 1; b_qmin := 1611661312; b_qdelta := 1616117760; b_qquant := 2; b_qseq := 0; b_quantlist := [1; 3] |}.
+Example C05_book_examples :
+  book_ok ex_ordered /\ is_ordered (b_lengths ex_ordered) = true /\
+  book_ok ex_sparse /\ is_ordered (b_lengths ex_sparse) = false /\
+  unpack_book (pack_book ex_ordered ++ pack_book ex_sparse ++ repeat false 8) = Some (ex_ordered, pack_book ex_sparse ++ repeat false 8).
+Proof.
+  split; [|split; [reflexivity|split; [|split; [reflexivity|vm_compute; reflexivity]]]].
+  - unfold book_ok, ex_ordered; cbn [b_dim b_entries b_lengths b_maptype b_qmin b_qdelta b_qquant b_qseq b_quantlist].
+    split; [lia|]. split; [lia|]. split; [vm_compute; discriminate|]. split; [reflexivity|].
+    split; [repeat constructor; lia|]. split.
+    + intros _. split; [cbn; lia|vm_compute; reflexivity].
+    + left. repeat split; reflexivity.
+  - unfold book_ok, ex_sparse; cbn [b_dim b_entries b_lengths b_maptype b_qmin b_qdelta b_qquant b_qseq b_quantlist].
+    split; [lia|]. split; [lia|]. split; [vm_compute; discriminate|]. split; [reflexivity|].
+    split; [repeat constructor; lia|]. split.
+    + intros H. vm_compute in H. discriminate.
+    + right. split; [left; reflexivity|]. split; [lia|]. split; [lia|]. split; [lia|]. split; [left; reflexivity|].
+      split; [vm_compute; reflexivity|repeat constructor; cbn; lia].
+Qed.
 
 Example C05_nonvacuous : prefix_free [(0, 1, 0); (1, 2, 2); (2, 2, 3)].
 Proof. cbn. repeat split; try discriminate; repeat constructor; try discriminate. Qed.
